@@ -9,8 +9,10 @@ def plan(tier):
         Cond("vf.h.h_order", "h_nearest", case=0, timeout=600, label="H01c-nearest-entity", weight=5),
         Cond("vf.h.h_req", "h_price_order", case=1, timeout=600, label="H01d-price-keys", weight=5),
     ]
+    for k in (1, 2, 3):
+        conds.append(Cond("vf.h.h_instr2", "h_prec_order", case=k, timeout=900, label=f"H01g-generator-map-order[generator {k} re-injected]", weight=15))
     for r in (1, 2):
-        conds.append(Cond("vf.h.h_queue", "h_fifo", case=r, timeout=900, env={"VF_ORACLE": "C01"}, label=f"H01f-update-order[v0 role {r}]", weight=40))
+        conds.append(Cond("vf.h.h_queue", "h_fifo", case=r, timeout=900, env={"VF_ORACLE": "C01", "VF_ROLESET": "1,2,3,5,6,7"}, label=f"H01f-update-order[v0 role {r}]", weight=40))
     for case in range(8):
         conds.append(Cond("vf.h.h_order", "h_step", case=case, timeout=900, label=f"H01e-step[v0cell={case // 2},v1cell={case % 2}]", weight=40))
     conds.append(Cond("vf.sites", "inventory", case=0, timeout=120, engine="smt", label="H01-site-inventory", weight=1))
@@ -20,9 +22,9 @@ def plan(tier):
         "explanation": "C01: a run is a composition of deterministic functions; the only process-dependent inputs are the iteration orders of hash-based containers (and uuid tags, exempt). "
                        "For every order-sensitive site the unordered container is replaced by a view whose iteration order is a solver-chosen permutation and the real function is run under two "
                        "permutations on the same symbolic state: equal results on all paths. Sites: both charger rankings over on_shift_access_chargers (in shortest_time_to_charge_ranking also every immutables.Map the function builds itself iterates in a solver-chosen order), nearest_entity over the k_ring cell set, "
-                       "price keys naming one station twice, the order in which SimulationState.vehicles yields its values to perform_vehicle_state_updates, and end-to-end StepSimulation.update (ChargingFleetManager + Dispatcher) with fleet set and plug set permuted. "
+                       "price keys naming one station twice, the generator Map of StepSimulation around a re-injection, the order in which SimulationState.vehicles yields its values to perform_vehicle_state_updates, and end-to-end StepSimulation.update (ChargingFleetManager + Dispatcher) with fleet set and plug set permuted. "
                        "An AST inventory of iterations over unordered containers in nrel/hive is regenerated on every run and listed (covered / insensitive by form / exempt / uncovered).",
-        "entry_points": ["assignment_ops.nearest_shortest_queue_ranking", "assignment_ops.shortest_time_to_charge_ranking", "H3Ops.nearest_entity", "ChargingPriceUpdate.update/_map_to_station_ids", "StepSimulation.update",
+        "entry_points": ["assignment_ops.nearest_shortest_queue_ranking", "assignment_ops.shortest_time_to_charge_ranking", "H3Ops.nearest_entity", "H3Ops.get_entities_at_cell", "StepSimulation.update_instruction_generator", "ChargingPriceUpdate.update/_map_to_station_ids", "StepSimulation.update",
                          "Dispatcher.generate_instructions", "ChargingFleetManager.generate_instructions", "instruction_generator_ops.generate_instructions"],
         "bounds": ["containers of 2-3 elements (all permutations in the solver's domain)", "ranking: 3 plug types, installed 0..3, queued 0..4", "ranking by time: 3 plug types, vehicle energy from {10, 49, 50} kWh, 0..3 steps left in the simulation (estimates capped: ties), no other vehicle at the station", "nearest: 3 stations in 3 search cells of ring 1, distances 0..3, validity bits",
                    "step: 2 vehicles (one in both fleets), 2 requests of either fleet, energy of v1 from {2, 8, 40} kWh, 4x2 placements"],
